@@ -58,7 +58,26 @@ func (d *cbDriver) endHistory() {
 	d.nontrivial = false
 }
 
+// guarded runs one documented CellBuffer call (and the reads that follow it); a call that panics leaves no
+// state of which the property could hold: it is logged as a Panic event and the history starts over.
+func (d *cbDriver) guarded(op string, x, y int, f func()) {
+	defer func() {
+		if r := recover(); r != nil {
+			d.tw.Emit(trace.Ev{"ev": "Panic", "op": op, "x": x, "y": y, "msg": fmt.Sprint(r)})
+			d.ops++
+			d.reset()
+		}
+	}()
+	f()
+}
+
 func (d *cbDriver) observe(e trace.Ev) {
+	x0, _ := e["x"].(int)
+	y0, _ := e["y"].(int)
+	d.guarded(fmt.Sprint(e["ev"])+"/read", x0, y0, func() { d.observe1(e) })
+}
+
+func (d *cbDriver) observe1(e trace.Ev) {
 	w, h := d.cb.Size()
 	e["w"], e["h"] = w, h
 	obs := make([]interface{}, 0, w*h)
@@ -103,7 +122,11 @@ func (d *cbDriver) reset() {
 func (d *cbDriver) setContent(x, y int, r rune, comb []rune, st tcell.Style) {
 	logged := trace.Runes(comb)
 	mine := append([]rune(nil), comb...)
-	d.cb.SetContent(x, y, r, mine, st)
+	ok := false
+	d.guarded("SetContent", x, y, func() { d.cb.SetContent(x, y, r, mine, st); ok = true })
+	if !ok {
+		return
+	}
 	for i := range mine { // the caller scribbles over its slice afterwards
 		mine[i] = 'X'
 	}
@@ -112,22 +135,33 @@ func (d *cbDriver) setContent(x, y int, r rune, comb []rune, st tcell.Style) {
 }
 
 func (d *cbDriver) fill(r rune, st tcell.Style) {
-	d.cb.Fill(r, st)
+	ok := false
+	d.guarded("Fill", 0, 0, func() { d.cb.Fill(r, st); ok = true })
+	if !ok {
+		return
+	}
 	d.observe(trace.Ev{"ev": "Fill", "cp": int(r), "wc": runes.Class(r), "st": tcx.Style(st)})
 }
 
 func (d *cbDriver) simple(op string, x, y int, b bool) {
-	switch op {
-	case "Resize":
-		d.cb.Resize(x, y)
-	case "Invalidate":
-		d.cb.Invalidate()
-	case "SetDirty":
-		d.cb.SetDirty(x, y, b)
-	case "Lock":
-		d.cb.LockCell(x, y)
-	case "Unlock":
-		d.cb.UnlockCell(x, y)
+	ok := false
+	d.guarded(op, x, y, func() {
+		switch op {
+		case "Resize":
+			d.cb.Resize(x, y)
+		case "Invalidate":
+			d.cb.Invalidate()
+		case "SetDirty":
+			d.cb.SetDirty(x, y, b)
+		case "Lock":
+			d.cb.LockCell(x, y)
+		case "Unlock":
+			d.cb.UnlockCell(x, y)
+		}
+		ok = true
+	})
+	if !ok {
+		return
 	}
 	d.observe(trace.Ev{"ev": op, "x": x, "y": y, "d": b})
 }
